@@ -60,8 +60,9 @@ impl SegmentSizes {
 
     pub fn on_payload_delivered(&mut self, payload_size: usize) {
         let payload_size = payload_size.min(u16::MAX as usize) as u16;
-        self.min_ss = self.min_ss.max(payload_size);
-        self.max_ss = self.max_ss.max(self.min_ss);
+        // Never grow past max_ss: it starts at the ceiling derived from the configured link MTU
+        // and is only ever lowered by failed probes.
+        self.min_ss = self.min_ss.max(payload_size.min(self.max_ss));
     }
 
     pub fn mss(&self) -> u16 {
